@@ -310,6 +310,27 @@ def collisions(sim):
         return None
 
 
+def first_hashes(sim):
+    """[label, position, first hash (real `_hash` of the key with the creation clock as salt), entrance] per registered
+    simulant; None without CRN / when not computable"""
+    try:
+        im = sim._randomness._key_mapping
+        if not im._use_crn or im._map is None:
+            return None
+        m = im._map
+        pop = sim.get_population(True)
+        out = []
+        for t in sorted(set(int(x) for x in pop["entrance"])):
+            labels = [int(l) for l in pop.index[pop["entrance"] == t]]
+            sub = m[m.index.get_level_values(im.SIM_INDEX_COLUMN).isin(labels)]
+            first = im._hash(sub.index.droplevel(im.SIM_INDEX_COLUMN), salt=t)
+            for lab, p, f in zip(sub.index.get_level_values(im.SIM_INDEX_COLUMN), sub.to_numpy(), first.to_numpy()):
+                out.append([int(lab), int(p), int(f), t])
+        return sorted(out)
+    except Exception:  # noqa: BLE001
+        return None
+
+
 def run(cfg, mode="step"):
     """Run the real engine on the kit. mode "step": explicit step() calls, table after every step;
     mode "run": SimulationContext.run() (the `while clock < stop` loop), final table only; mode "init": the initial
@@ -317,7 +338,7 @@ def run(cfg, mode="step"):
     Returns {"init": table | None, "steps": [table...], "clocks": [...], "error": None | {"at": k, "class": c, "msg": m},
              "positions_by_stage": [...], "positions": after the last completed stage, "size": block size, "collisions": n}"""
     out = {"init": None, "steps": [], "clocks": [], "error": None, "positions": None, "positions_by_stage": [], "size": None,
-           "mode": mode, "collisions": None}
+           "mode": mode, "collisions": None, "first_hashes": None}
     sim = make_context(cfg)
     try:
         sim.setup()
@@ -361,6 +382,7 @@ def run(cfg, mode="step"):
     if out["error"] is None:
         out["positions"] = out["positions_by_stage"][-1]
         out["collisions"] = collisions(sim)
+        out["first_hashes"] = first_hashes(sim) if mode == "step" else None
         try:
             sim.finalize()
         except Exception as e:  # noqa: BLE001
